@@ -61,6 +61,12 @@ def gen_cases(tier, seed):
         rho = float(10 ** rng.uniform(1, 3.2))
         ph = float(rng.uniform(0, 2 * np.pi))
         b = [a[0] + rho * np.cos(ph), a[1] + rho * np.sin(ph), float(rng.uniform(max(zlo, -400), -1))]
+        if fam == "uniform" and rng.random() < 0.3:
+            # whole-number endpoints handed over as Python ints / an int array
+            a = [int(round(x)) for x in a]
+            b = [int(round(b[0])), int(round(b[1])), int(min(-1, round(b[2])))]
+            a[2] = int(min(-1, a[2]))
+            c["endpoint_type"] = ["list of int", "tuple of int", "int ndarray"][int(rng.integers(0, 3))]
         big = [8, 16, 33, 128, 257, 1024, 4096] if tier == "thorough" and fam != "basic" else [8, 16, 33, 128, 257]     # the numeric tracer integrates per frequency
         c.update({"from": a, "to": b, "N": int(rng.choice(big)),
                   "dt": float(rng.choice([1e-11, 1e-10, 1e-9, 3e-9, 1e-8])), "t0": float(rng.uniform(-1e-7, 1e-7)),
@@ -80,7 +86,8 @@ def make_solutions(case, ice):
         return list(rt.BasicRayTracer(a, b, ice, dz=1.0).solutions)
     if fam == "uniform":
         UT = type("UT2", (rt.UniformRayTracer,), {"max_reflections": 2})
-        return list(UT(a, b, ice).solutions)
+        rep = {"list of int": list, "tuple of int": tuple, "int ndarray": lambda x: np.array(x, dtype=int)}.get(case.get("endpoint_type"))
+        return list((UT(rep(case["from"]), rep(case["to"]), ice) if rep else UT(a, b, ice)).solutions)
     from pyrex.custom.layered_ice import LayeredRayTracer
     return list(LayeredRayTracer(a, b, ice).solutions)
 
@@ -135,7 +142,7 @@ def run_case(case):
     rng = case_rng(case, case["salt"])
     ice = gen.make_ice(case["ice"])
     fam = case["family"]
-    geo = {"family": fam, "from": case["from"], "to": case["to"], "interp": case["interp"], "N": case["N"], "dt": case["dt"]}
+    geo = {"family": fam, "from": case["from"], "to": case["to"], "interp": case["interp"], "N": case["N"], "dt": case["dt"], "endpoint_type": case.get("endpoint_type", "float ndarray")}
     try:
         sols = make_solutions(case, ice)
     except Exception as e:      # noqa: BLE001 -- tracer failures belong to C01/C02; here there is nothing to propagate
@@ -280,18 +287,22 @@ def run_case(case):
         if fam in ("specialized", "basic"):
             fabs = np.minimum(fabs, fmax_pos)          # the Nyquist bin is clamped to the last positive FFT frequency
         A = np.asarray(p.attenuation(fabs), float)
-        for comp, r_c, out in (("s", r_s, ss), ("p", r_p, sp)):
-            pc = float(np.dot(pol, u_s0 if comp == "s" else u_p0))
+        fabs_true = np.abs(fr2)
+        A_true = np.asarray(p.attenuation(fabs_true), float)     # without force_real the response is evaluated at every FFT frequency itself
+
+        def spec_clause(label, pc, r_c, out_values, interp, det=det, A=A, fr2=fr2, fabs=fabs, fmax_pos=fmax_pos, p=p):
+            if label.startswith("unpolarized"):
+                A, fabs = A_true, fabs_true
             H = A * r_c
             H = np.where(fr2 < 0, np.conj(H), H)
             spec = scipy.fft.fft(np.concatenate((vals * pc, np.zeros(N))))
             exact = np.real(scipy.fft.ifft(H * spec))[:N]
             scale = max(float(np.max(np.abs(vals))) * abs(pc), 1e-300)
-            if case["interp"] is None:
-                v.close("each frequency component is multiplied by attenuation x Fresnel coefficient (%s component)" % comp,
-                        float(np.max(np.abs(exact - out.values))) / scale, 1e-8, **det)
+            if interp is None:
+                v.close("each frequency component is multiplied by attenuation x Fresnel coefficient (%s)" % label,
+                        float(np.max(np.abs(exact - out_values))) / scale, 1e-8, **det)
             else:
-                step = 10 ** case["interp"]
+                step = 10 ** interp
                 lo_f, hi_f = fabs / step, np.minimum(fabs * step, fmax_pos * step)
                 fpos = fabs[fabs > 0]
                 fmin_pos = float(np.min(fpos)) if len(fpos) else 0.0
@@ -299,9 +310,24 @@ def run_case(case):
                 b_ = np.asarray(p.attenuation(lo_f), float) - np.asarray(p.attenuation(hi_f), float)
                 b_[fabs == 0] = 0.0
                 bound = float(np.sum((b_ * abs(r_c) * np.abs(spec)) ** 2) / M)
-                diff = float(np.sum((exact - out.values) ** 2))
-                v.check(diff <= bound * (1 + 1e-6) + 1e-18 * scale ** 2 * N, "with interpolation the applied factor stays between the attenuations one step below and above each frequency (%s component)" % comp,
+                diff = float(np.sum((exact - out_values) ** 2))
+                v.check(diff <= bound * (1 + 1e-6) + 1e-18 * scale ** 2 * N, "with interpolation the applied factor stays between the attenuations one step below and above each frequency (%s)" % label,
                         energy_of_difference=diff, bound=bound, **det)
+
+        spec_clause("s component", float(np.dot(pol, u_s0)), r_s, ss.values, case["interp"])
+        spec_clause("p component", float(np.dot(pol, u_p0)), r_p, sp.values, case["interp"])
+        if j == 0:
+            # unpolarized mode on the same path object: attenuation and delay only ...
+            un = p.propagate(signal=s, **kw)
+            v.check(np.array_equal(un.times, t + p.tof), "unpolarized propagation also delays by the time of flight", **det)
+            spec_clause("unpolarized", 1.0, 1.0, un.values, case["interp"])
+            # ... and the same path object asked again with another interpolation setting answers for that setting
+            other = None if case["interp"] is not None else 0.37
+            if kw:
+                (os_, op_), _ = p.propagate(signal=s, polarization=pol, attenuation_interpolation=other)
+                spec_clause("s component, second interpolation setting on the same path", float(np.dot(pol, u_s0)), r_s, os_.values, other)
+                un2 = p.propagate(signal=s, attenuation_interpolation=other)
+                spec_clause("unpolarized, second interpolation setting on the same path", 1.0, 1.0, un2.values, other)
         done += 1
     # unpolarized mode: only attenuation and delay
     p = sols[0]
